@@ -1,6 +1,52 @@
-(** C16 — provisional statement file (whole-type theorems are being added). *)
-From Asn1V Require Import Base.Prelude Base.Bits Base.BitsProofs Syntax.Asn1 Per.UperImpl Per.UperPrim.
+(** C16 — a truncated encoding is reported as a decode error, never as a
+    value.  Statements only; proofs in Per/UperPB.v (UPER).  The other codecs'
+    theorems are added here as their models are delivered. *)
+From Asn1V Require Import Base.Prelude Base.Bits Syntax.Asn1 Per.UperImpl Per.UperPrim Per.UperPB.
 
-Theorem C16_length_determinant_prefix_behaviour : PB read_len.
-Proof. exact PB_read_len. Qed.
-Print Assumptions C16_length_determinant_prefix_behaviour.
+(** UPER, all modelled types (every nesting of BOOLEAN, INTEGER in all its
+    constraint forms, ENUMERATED, NULL, BIT/OCTET/character strings incl.
+    16K fragmentation, OBJECT IDENTIFIER, SEQUENCE/SET with OPTIONAL/DEFAULT,
+    extension additions and groups, SEQUENCE OF, CHOICE with additions,
+    references and recursion), all environments, all fuels: whenever the
+    decoder accepts an octet string [data] and reads into its last octet (which
+    is the case for every encoder output: only 0..7 padding bits follow the
+    value), every strict octet-prefix of [data] is rejected, and rejected with
+    the library's decode error — not a value, not a foreign exception. *)
+Theorem C16_uper_truncation :
+  forall numeric fuel e t data v n,
+    uper_decode numeric fuel e t data = Ok (v, n) ->
+    (8 * (length data - 1) < n)%nat ->
+    forall k, (k < length data)%nat ->
+      exists x, uper_decode numeric fuel e t (firstn k data) = Err x /\ is_decode_error x = true.
+Proof. exact uper_decode_truncation. Qed.
+Print Assumptions C16_uper_truncation.
+
+(** The bit-level statement it rests on: prefix behaviour of the
+    type-directed decoder. *)
+Theorem C16_uper_prefix_behaviour : forall numeric e fuel t, PB (dec numeric e fuel t).
+Proof. exact PB_dec. Qed.
+Print Assumptions C16_uper_prefix_behaviour.
+
+(** Non-vacuity: an extensible SEQUENCE with an OPTIONAL member, a DEFAULT
+    member, a SEQUENCE OF and a present extension addition; the encoder output
+    meets the hypotheses and both strict prefixes are decode errors. *)
+Local Open Scope string_scope.
+Definition ex_ty : ty :=
+  TSeq false
+       [("a", TInt (IcRange (Some 0) (Some 1000) false), Mandatory);
+        ("b", TBool, Optional);
+        ("c", TInt IcNone, Default (VInt 7));
+        ("d", TSeqOf false (TInt (IcRange (Some 0) (Some 3) true)) (SzRange 0 (Some 5) false), Mandatory)]
+       (Some [(false, [("x", TOctets SzNone, Optional)])]).
+Definition ex_val : value :=
+  VSeq [("a", VInt 777); ("b", VBool true); ("d", VList [VInt 1; VInt 9]); ("x", VBytes [1; 2])].
+
+Example C16_hypotheses_inhabited :
+  exists data v n,
+    uper_encode false 10 [] ex_ty ex_val = Ok data /\
+    uper_decode false 10 [] ex_ty data = Ok (v, n) /\ (8 * (length data - 1) < n)%nat /\ (3 < length data)%nat.
+Proof.
+  eexists. eexists. eexists. split; [vm_compute; reflexivity|]. split; [vm_compute; reflexivity|].
+  split; vm_compute; lia.
+Qed.
+Print Assumptions C16_hypotheses_inhabited.
